@@ -18,13 +18,15 @@ Alpha == [statefunc |-> statefunc', init |-> init', task |-> next_task',
 
 AlphaNow == [statefunc |-> statefunc, init |-> init, task |-> next_task,
              cleanup_none |-> (cleanup = NoneS), reason |-> cleanup_reason, attrs |-> attrs]
-(* construction: plain, or (one representative each) with an attribute and a first state / with an attribute only; *)
+(* construction: plain (transition callback given), or - one representative each - with an attribute and a first   *)
+(* state but WITHOUT transition callback / with an attribute, a cleanup function and the callback;                 *)
 (* a non-plain construction counts as the first operation of the behaviour                                       *)
 GInit == /\ Init /\ calls = <<>> /\ ncalls = 0
-         /\ \/ attrs = NoKw /\ next_task = NoTask /\ hist = <<>>
-            \/ /\ attrs # NoKw
-               /\ (attrs["x"] # Absent) <=> (next_task # NoTask)
-               /\ hist = <<[act |-> "new", s |-> next_task.s, kw |-> attrs, c |-> NoneS, exp |-> AlphaNow]>>
+         /\ \/ attrs = NoKw /\ next_task = NoTask /\ cleanup = NoneS /\ transition = "given" /\ hist = <<>>
+            \/ /\ \/ attrs["x"] # Absent /\ next_task # NoTask /\ cleanup = NoneS /\ transition = "none"
+                  \/ attrs["y"] # Absent /\ next_task = NoTask /\ cleanup # NoneS /\ transition = "given"
+               /\ hist = <<[act |-> "new", s |-> next_task.s, kw |-> attrs, c |-> cleanup,
+                            hook |-> (transition = "given"), exp |-> AlphaNow]>>
 
 (* the n-th start request carries x = n (all requests distinguishable) and y only when n is odd *)
 NStarts == Len(SelectSeq(hist, LAMBDA h : h.act = "start"))
@@ -63,10 +65,10 @@ H_CycleBounded == /\ StateCalls(calls) <= 2 * MaxLoops
                   /\ Len(SelectSeq(calls, LAMBDA e : e.ev = "cleanup")) <= 2
 (* within a cycle: a call sees init iff the previous logged event is a transition (hook),  *)
 (* or (first call of the cycle) the previous cycle did not end with a call of the same run *)
-H_InitFlag == \A i \in 2 .. Len(calls) :
+H_InitFlag == transition = "given" => \A i \in 2 .. Len(calls) :
                  calls[i].ev = "call" => (calls[i].init <=> calls[i - 1].ev = "hook")
 (* between two cleanup calls there is the entry into a requested state (a new run) *)
-H_CleanupOnce == \A i, j \in 1 .. Len(calls) :
+H_CleanupOnce == transition = "given" => \A i, j \in 1 .. Len(calls) :
                     (i < j /\ calls[i].ev = "cleanup" /\ calls[j].ev = "cleanup") =>
                        \E m \in i + 1 .. j - 1 : calls[m].ev = "hook" /\ calls[m].to # NoneS
                                                  /\ \E n \in i + 1 .. m - 1 : calls[n].ev = "hook" /\ calls[n].to = NoneS
